@@ -951,6 +951,46 @@ Proof.
       | intros t' Ht'; specialize (Hlt t' Ht'); unfold r1, c1; destruct (Nat.eqb_spec (S cc) W); lia ]).
 Qed.
 
+(* the walk only loses batches as the pointer advances, and loses one at every slot that holds a batch *)
+Lemma refsuf_len_mono : forall m r cc R cy, m = (R - r) * W + cy - cc -> (r < R \/ (r = R /\ cc <= cy)) -> cc < W -> cy < W ->
+  length (refsuf W B R cy) <= length (refsuf W B r cc).
+Proof.
+  induction m as [m IHm] using lt_wf_ind. intros r cc R cy Em Hle Hcc Hcy.
+  assert ((r = R /\ cc = cy) \/ (r < R \/ (r = R /\ cc < cy))) as [[-> ->]|Hstrict] by lia; [lia|].
+  rewrite (refsuf_step W B HW r cc Hcc), app_length.
+  set (r1 := if S cc =? W then S r else r). set (c1 := if S cc =? W then 0 else S cc).
+  assert ((if S cc =? W then refsuf W B (S r) 0 else refsuf W B r (S cc)) = refsuf W B r1 c1) as -> by (unfold r1, c1; destruct (S cc =? W); reflexivity).
+  assert (c1 < W) as Hc1 by (unfold c1; destruct (Nat.eqb_spec (S cc) W); lia).
+  assert (r1 < R \/ (r1 = R /\ c1 <= cy)) as Hle1 by (unfold r1, c1; destruct (Nat.eqb_spec (S cc) W); lia).
+  assert ((R - r1) * W + cy - c1 < m) as Hm1
+    by (rewrite Em; unfold r1, c1; destruct (Nat.eqb_spec (S cc) W) as [EW|NW]; [replace (R - r) with (S (R - S r)) by lia; nia | nia]).
+  specialize (IHm _ Hm1 r1 c1 R cy eq_refl Hle1 Hc1 Hcy). lia.
+Qed.
+
+Lemma refsuf_len_data x y : y < W -> x < nb B y ->
+  S (length (refsuf W B (if S y =? W then S x else x) (if S y =? W then 0 else S y))) = length (refsuf W B x y).
+Proof.
+  intros Hy Hx. rewrite (refsuf_step W B HW x y Hy), app_length. destruct (ans_data W B HW y x Hx) as (b & _ & ->). cbn [length].
+  destruct (S y =? W); reflexivity.
+Qed.
+
+(* two pointers that each follow a slot holding a batch and leave the same number of batches are the same pointer *)
+Lemma pointer_unique x y x' y' : y < W -> y' < W -> x < nb B y -> x' < nb B y' ->
+  length (refsuf W B (if S y =? W then S x else x) (if S y =? W then 0 else S y)) =
+  length (refsuf W B (if S y' =? W then S x' else x') (if S y' =? W then 0 else S y')) -> x = x' /\ y = y'.
+Proof.
+  intros Hy Hy' Hx Hx' E.
+  pose proof (refsuf_len_data x y Hy Hx) as D1. pose proof (refsuf_len_data x' y' Hy' Hx') as D2.
+  assert ((x = x' /\ y = y') \/ (x < x' \/ (x = x' /\ y < y')) \/ (x' < x \/ (x' = x /\ y' < y))) as [Heq|[Hlt|Hlt]] by lia; [exact Heq | exfalso | exfalso].
+  - (* slot (x,y) strictly before (x',y'): next (x,y) <= (x',y') *)
+    set (r1 := if S y =? W then S x else x) in *. set (c1 := if S y =? W then 0 else S y) in *.
+    assert (c1 < W) as Hc1 by (unfold c1; destruct (Nat.eqb_spec (S y) W); lia).
+    pose proof (refsuf_len_mono _ r1 c1 x' y' eq_refl ltac:(unfold r1, c1; destruct (Nat.eqb_spec (S y) W); lia) Hc1 Hy') as M. lia.
+  - set (r1 := if S y' =? W then S x' else x') in *. set (c1 := if S y' =? W then 0 else S y') in *.
+    assert (c1 < W) as Hc1 by (unfold c1; destruct (Nat.eqb_spec (S y') W); lia).
+    pose proof (refsuf_len_mono _ r1 c1 x y eq_refl ltac:(unfold r1, c1; destruct (Nat.eqb_spec (S y') W); lia) Hc1 Hy) as M. lia.
+Qed.
+
 (* ------------------------------------------------------------------ *)
 (* snapshots: the queue of main-process snapshots always holds an entry for the task that will be handed out at a snapshot
    boundary, so the alignment assertion of _take_snapshot cannot fire.  y is the number of batches handed out so far
@@ -1121,6 +1161,7 @@ Qed.
    process has ALREADY PASSED (handed out, or an end-of-shard notice consumed in order) — never the state after a result that
    is still buffered or outstanding, however far a fast worker has run ahead. *)
 Variable wk0 : nat -> wk.      (* the worker machines this iterator started with *)
+Variable trk : bool.           (* are the worker-state entries tracked? (false: a fast-forwarded iterator, whose loaded entries are never used) *)
 Definition t0 : task := {| t_idx := 0; t_index := []; t_snap := false |}.
 Definition wstep (w : nat) (k : wk) : wk := snd (worker_fetch c w k t0).
 Definition wsk (w j : nat) : wk := Nat.iter (j - a0 w) (wstep w) (wk0 w).
@@ -1148,10 +1189,10 @@ Record InvW (gw rd a : nat -> nat) (s : ms) : Prop := {
   w_k : forall w, w < W -> same_pe (nth w (m_workers s) wk_fresh) (wsk w (a w));
   w_i : forall t w r st, info_get (m_info s) t = Some (w, Some (r, st)) -> st = None \/ st = Some (wst w (S (rd t)));
   w_len : length (m_wsnap s) = W;
-  w_s : forall w, w < W -> exists j, nth w (m_wsnap s) (0, false) = wst w j /\
+  w_s : trk = true -> forall w, w < W -> exists j, nth w (m_wsnap s) (0, false) = wst w j /\
                                      (j = a0 w \/ exists t, t < m_rcvd s /\ gw t = w /\ S (rd t) = j);
   w_snlen : length (sn_workers (m_snapshot s)) = W;
-  w_sn : forall w, w < W -> exists j, nth w (sn_workers (m_snapshot s)) (0, false) = wst w j /\
+  w_sn : trk = true -> forall w, w < W -> exists j, nth w (sn_workers (m_snapshot s)) (0, false) = wst w j /\
                                       (j = a0 w \/ exists t, t < m_rcvd s /\ gw t = w /\ S (rd t) = j) }.
 
 Definition agreeW (s s' : ms) : Prop :=
@@ -1181,10 +1222,10 @@ Proof.
     + destruct (Nat.eq_dec t (m_send s)) as [->|Hne]; [congruence|]. rewrite upd_neq by exact Hne. injection Hi as ->. exact (w_i _ _ _ _ H t w r st E).
     + destruct (m_send s =? t); discriminate.
   - exact (w_len _ _ _ _ H).
-  - intros w Hw. destruct (w_s _ _ _ _ H w Hw) as (j & Ej & Hj). exists j. split; [exact Ej|].
+  - intros Htk w Hw. destruct (w_s _ _ _ _ H Htk w Hw) as (j & Ej & Hj). exists j. split; [exact Ej|].
     destruct Hj as [Hj|(t & T1 & T2 & T3)]; [left; exact Hj | right; exists t; rewrite !upd_neq by lia; auto].
   - exact (w_snlen _ _ _ _ H).
-  - intros w Hw. destruct (w_sn _ _ _ _ H w Hw) as (j & Ej & Hj). exists j. split; [exact Ej|].
+  - intros Htk w Hw. destruct (w_sn _ _ _ _ H Htk w Hw) as (j & Ej & Hj). exists j. split; [exact Ej|].
     destruct Hj as [Hj|(t & T1 & T2 & T3)]; [left; exact Hj | right; exists t; rewrite !upd_neq by lia; auto].
 Qed.
 
@@ -1204,16 +1245,16 @@ Proof.
   - intros t w r st Hi. destruct (Nat.eq_dec t (m_rcvd s)) as [->|Hne]; [rewrite info_get_del_eq in Hi by exact Hwf; discriminate|].
     rewrite info_get_del_neq in Hi by lia. exact (w_i _ _ _ _ H t w r st Hi).
   - destruct Hws as [->| ->]; [|rewrite set_nth_length]; exact (w_len _ _ _ _ H).
-  - intros w Hw. destruct Hws as [->| ->].
-    + destruct (w_s _ _ _ _ H w Hw) as (j & Ej & Hj). exists j. split; [exact Ej|].
+  - intros Htk w Hw. destruct Hws as [->| ->].
+    + destruct (w_s _ _ _ _ H Htk w Hw) as (j & Ej & Hj). exists j. split; [exact Ej|].
       destruct Hj as [Hj|(t & T1 & T2 & T3)]; [left; exact Hj | right; exists t; repeat split; auto; lia].
     + destruct (Nat.eq_dec w (gw (m_rcvd s))) as [->|Hne].
       * rewrite nth_set_nth_eq by (rewrite (w_len _ _ _ _ H); exact Hg). eexists. split; [reflexivity|]. right. exists (m_rcvd s). repeat split; auto.
       * rewrite nth_set_nth_neq by (intros E; apply Hne; symmetry; exact E).
-        destruct (w_s _ _ _ _ H w Hw) as (j & Ej & Hj). exists j. split; [exact Ej|].
+        destruct (w_s _ _ _ _ H Htk w Hw) as (j & Ej & Hj). exists j. split; [exact Ej|].
         destruct Hj as [Hj|(t & T1 & T2 & T3)]; [left; exact Hj | right; exists t; repeat split; auto; lia].
   - exact (w_snlen _ _ _ _ H).
-  - intros w Hw. destruct (w_sn _ _ _ _ H w Hw) as (j & Ej & Hj). exists j. split; [exact Ej|].
+  - intros Htk w Hw. destruct (w_sn _ _ _ _ H Htk w Hw) as (j & Ej & Hj). exists j. split; [exact Ej|].
     destruct Hj as [Hj|(t & T1 & T2 & T3)]; [left; exact Hj | right; exists t; repeat split; auto; lia].
 Qed.
 
@@ -1261,7 +1302,7 @@ Qed.
 Record InvX (gw rd : nat -> nat) (s : ms) : Prop := {
   x_q : c_I c = 1 -> forall w, w < W -> forall tk, In tk (wq s w) -> t_snap tk = true;
   x_i : c_I c = 1 -> forall t w r st, info_get (m_info s) t = Some (w, Some (r, st)) -> st = Some (wst w (S (rd t)));
-  x_s : c_I c = 1 -> forall w, w < W -> exists j, nth w (m_wsnap s) (0, false) = wst w j /\
+  x_s : c_I c = 1 -> trk = true -> forall w, w < W -> exists j, nth w (m_wsnap s) (0, false) = wst w j /\
           (forall t, t < m_rcvd s -> gw t = w -> rd t <= nb B w -> rd t < j) /\
           (j = a0 w \/ exists t, t < m_rcvd s /\ gw t = w /\ S (rd t) = j /\ rd t <= nb B w) }.
 
@@ -1290,7 +1331,7 @@ Proof.
   - intros t w r st Hi. cbn [put_some m_info] in Hi. rewrite info_get_app in Hi. destruct (info_get (m_info s) t) as [v|] eqn:E.
     + destruct (Nat.eq_dec t (m_send s)) as [->|Hne]; [congruence|]. rewrite upd_neq by exact Hne. injection Hi as ->. exact (x_i _ _ _ H HI t w r st E).
     + destruct (m_send s =? t); discriminate.
-  - cbn [put_some m_wsnap m_rcvd]. intros w Hw. destruct (x_s _ _ _ H HI w Hw) as (j & Ej & Hmax & Hj). exists j. split; [exact Ej|]. split.
+  - cbn [put_some m_wsnap m_rcvd]. intros Htk w Hw. destruct (x_s _ _ _ H HI Htk w Hw) as (j & Ej & Hmax & Hj). exists j. split; [exact Ej|]. split.
     + intros t Ht. rewrite !upd_neq by lia. apply Hmax, Ht.
     + destruct Hj as [Hj|(t & T1 & T2 & T3 & T4)]; [left; exact Hj | right; exists t; rewrite !upd_neq by lia; auto].
 Qed.
@@ -1311,7 +1352,7 @@ Proof.
   - intros t w r st Hi. unfold passed in Hi. cbn [upd_core m_info] in Hi.
     destruct (Nat.eq_dec t (m_rcvd s)) as [->|Hne]; [rewrite info_get_del_eq in Hi by exact Hwf; discriminate|].
     rewrite info_get_del_neq in Hi by lia. exact (x_i _ _ _ H HI t w r st Hi).
-  - unfold passed. cbn [upd_core m_wsnap m_rcvd]. intros w Hw. destruct (x_s _ _ _ H HI w Hw) as (j & Ej & Hmax & Hj).
+  - unfold passed. cbn [upd_core m_wsnap m_rcvd]. intros Htk w Hw. destruct (x_s _ _ _ H HI Htk w Hw) as (j & Ej & Hmax & Hj).
     destruct Hws as [[-> Hgt]|[-> Hle]].
     + exists j. split; [exact Ej|]. split.
       * intros t Ht Hgw Hr. destruct (Nat.eq_dec t (m_rcvd s)) as [->|Hne]; [rewrite Hgw in *; lia | apply Hmax; auto; lia].
@@ -1357,7 +1398,7 @@ Lemma process_data_gen s3 b w st gw rd :
              m_info sF = m_info (try_put_index c s3) /\ InvS (m_ny sF) gw rd sF /\ m_ny sF = S (m_ny (try_put_index c s3)) /\
              m_wsnap sF = (match st with Some x => set_nth (m_wsnap (try_put_index c s3)) w x | None => m_wsnap (try_put_index c s3) end) /\
              (m_snapshot sF = m_snapshot (try_put_index c s3) \/ sn_workers (m_snapshot sF) = m_wsnap sF) /\
-             (c_I c = 1 -> sn_workers (m_snapshot sF) = m_wsnap sF /\ sn_step (m_snapshot sF) = m_ny sF /\ sn_last (m_snapshot sF) = w).
+             (c_I c = 1 -> sn_workers (m_snapshot sF) = m_wsnap sF /\ sn_step (m_snapshot sF) = m_ny sF /\ sn_last (m_snapshot sF) = w /\ m_last sF = w).
 Proof.
   intros Has HS Hk1 Hb. unfold process_data. set (s2 := try_put_index c s3) in *.
   destruct (Nat.eqb_spec (c_I c) 0) as [EI|NI]; cbn [negb andb].
@@ -1389,13 +1430,13 @@ Lemma final_invW gw rd a s2 sF k w st : InvW gw rd a s2 -> m_rcvd s2 = S k -> gw
   InvW gw rd a sF.
 Proof.
   intros H Hr Hg Hw Hst E1 E2 E3 E4 E5.
-  assert (length (m_wsnap sF) = W /\ forall v, v < W -> exists j, nth v (m_wsnap sF) (0, false) = wst v j /\
-            (j = a0 v \/ exists t, t < m_rcvd sF /\ gw t = v /\ S (rd t) = j)) as [HL HWS].
+  assert (length (m_wsnap sF) = W /\ (trk = true -> forall v, v < W -> exists j, nth v (m_wsnap sF) (0, false) = wst v j /\
+            (j = a0 v \/ exists t, t < m_rcvd sF /\ gw t = v /\ S (rd t) = j))) as [HL HWS].
   { rewrite E4, E2. destruct Hst as [->| ->].
     - split; [exact (w_len _ _ _ _ H) | exact (w_s _ _ _ _ H)].
-    - split; [rewrite set_nth_length; exact (w_len _ _ _ _ H)|]. intros v Hv. destruct (Nat.eq_dec v w) as [->|Hne].
+    - split; [rewrite set_nth_length; exact (w_len _ _ _ _ H)|]. intros Htk v Hv. destruct (Nat.eq_dec v w) as [->|Hne].
       + rewrite nth_set_nth_eq by (rewrite (w_len _ _ _ _ H); exact Hw). eexists. split; [reflexivity|]. right. exists k. repeat split; auto. lia.
-      + rewrite nth_set_nth_neq by (intros E; apply Hne; symmetry; exact E). exact (w_s _ _ _ _ H v Hv). }
+      + rewrite nth_set_nth_neq by (intros E; apply Hne; symmetry; exact E). exact (w_s _ _ _ _ H Htk v Hv). }
   constructor.
   - rewrite E1. exact (w_k _ _ _ _ H).
   - rewrite E3. exact (w_i _ _ _ _ H).
@@ -1473,7 +1514,7 @@ Qed.
 (* the state right after a batch was handed out, snapshot_every_n_steps = 1: the snapshot was just taken *)
 Definition PostH (gw rd : nat -> nat) (s : ms) : Prop :=
   c_I c = 1 -> 0 < m_rcvd s /\ sn_workers (m_snapshot s) = m_wsnap s /\ sn_step (m_snapshot s) = m_ny s /\
-               sn_last (m_snapshot s) = gw (m_rcvd s - 1) /\ rd (m_rcvd s - 1) < nb B (gw (m_rcvd s - 1)).
+               sn_last (m_snapshot s) = gw (m_rcvd s - 1) /\ rd (m_rcvd s - 1) < nb B (gw (m_rcvd s - 1)) /\ m_last s = gw (m_rcvd s - 1).
 
 Lemma handout gw rd a R s ws b st0 st rest :
   InvC gw rd a R s -> Rest gw rd R s rest -> Act gw rd a s -> InvS (m_ny s) gw rd s -> m_rcvd s < m_send s ->
@@ -1560,7 +1601,7 @@ Proof.
     apply (InvX_ext gw' rd' sx sF HXx); try (intros t; rewrite Hinf, Ex4; reflexivity);
     (split; [rewrite A6; symmetry; exact Ex1 | split; [rewrite EwsF, (Hst1 HI), Ews2, Ews, Ex3; reflexivity | rewrite A2; symmetry; exact Ex2]]). }
   assert (PostH gw' rd' sF) as HPF.
-  { intros HI. destruct (EpostF HI) as (P1 & P2 & P3). destruct Hag as (A1 & A2 & A3 & A4 & A5 & A6 & A7).
+  { intros HI. destruct (EpostF HI) as (P1 & P2 & P3 & P4). destruct Hag as (A1 & A2 & A3 & A4 & A5 & A6 & A7).
     rewrite A2, Erc. replace (S k - 1) with k by lia. rewrite Egk, Erk. repeat split; auto; lia. }
   exists rest', sF, gw', rd', R'. split; [exact Erest|]. split; [exact EF|].
   split; [apply (InvC_ext gw' rd' a R' s2 sF H2 Hag); rewrite ?Hinf; auto; exact (c_wf _ _ _ _ _ H2)|].
@@ -2230,7 +2271,7 @@ Proof. unfold a0, cnt, b2n. destruct (w <? cyc0); reflexivity. Qed.
 
 Definition entries_ok (workers : list wk) (wsnap : list wsave) (snap : snapshot) : Prop :=
   (forall w, w < W -> same_pe (nth w workers wk_fresh) (wk0 w)) /\ length wsnap = W /\
-  (forall w, w < W -> nth w wsnap (0, false) = (wk_pos (wk0 w), wk_ended (wk0 w))) /\ sn_workers snap = wsnap.
+  (trk = true -> forall w, w < W -> nth w wsnap (0, false) = (wk_pos (wk0 w), wk_ended (wk0 w))) /\ sn_workers snap = wsnap.
 
 Lemma wst_a0 w : wst w (a0 w) = (wk_pos (wk0 w), wk_ended (wk0 w)).
 Proof. unfold wst, wsk. rewrite Nat.sub_diag. reflexivity. Qed.
@@ -2242,9 +2283,9 @@ Proof.
   - intros w Hw. unfold wsk. rewrite Nat.sub_diag. exact (E1 w Hw).
   - intros t w r st Hi. discriminate.
   - exact E2.
-  - intros w Hw. exists (a0 w). rewrite wst_a0. split; [exact (E3 w Hw) | left; reflexivity].
+  - intros Htk w Hw. exists (a0 w). rewrite wst_a0. split; [exact (E3 Htk w Hw) | left; reflexivity].
   - rewrite E4. exact E2.
-  - intros w Hw. exists (a0 w). rewrite wst_a0, E4. split; [exact (E3 w Hw) | left; reflexivity].
+  - intros Htk w Hw. exists (a0 w). rewrite wst_a0, E4. split; [exact (E3 Htk w Hw) | left; reflexivity].
 Qed.
 
 Lemma blank_invX workers ny0 siy0 samp0 last0 wsnap snap : entries_ok workers wsnap snap -> workers_ok workers ->
@@ -2253,7 +2294,7 @@ Proof.
   intros (E1 & E2 & E3 & E4) [Hlen Hws]. constructor; intros HI; unfold init0.
   - intros w Hw tk Hin. unfold wq in Hin. cbn [m_workers] in Hin. destruct (Hws w Hw) as (Q & _). rewrite Q in Hin. contradiction.
   - intros t w r st Hi. discriminate.
-  - cbn [m_wsnap m_rcvd]. intros w Hw. exists (a0 w). rewrite wst_a0. split; [exact (E3 w Hw)|]. split; [intros t Ht; lia | left; reflexivity].
+  - cbn [m_wsnap m_rcvd]. intros Htk w Hw. exists (a0 w). rewrite wst_a0. split; [exact (E3 Htk w Hw)|]. split; [intros t Ht; lia | left; reflexivity].
 Qed.
 
 Lemma blank_inv workers ny0 siy0 samp0 last0 wsnap snap : workers_ok workers ->
@@ -2400,12 +2441,12 @@ Qed.
 Definition wk_fresh0 : nat -> wk := fun _ => wk_fresh.
 
 Lemma fresh_entries_ok snap : sn_workers snap = repeat (0, false) (c_W c) ->
-  entries_ok c wk_fresh0 (repeat wk_fresh (c_W c)) (repeat (0, false) (c_W c)) snap.
+  entries_ok c wk_fresh0 true (repeat wk_fresh (c_W c)) (repeat (0, false) (c_W c)) snap.
 Proof.
   intros Hs. split; [|split; [|split]].
   - intros w Hw. rewrite nth_repeat_fresh'. split; reflexivity.
   - apply repeat_length.
-  - intros w _. generalize (c_W c). intros n. revert w. induction n as [|n IH]; intros [|w]; cbn; auto. apply IH.
+  - intros _ w _. generalize (c_W c). intros n. revert w. induction n as [|n IH]; intros [|w]; cbn; auto. apply IH.
   - exact Hs.
 Qed.
 
@@ -2414,10 +2455,10 @@ Definition snap_fresh : snapshot :=
 
 Lemma fresh_start : exists gw rd R,
   InvC c (Bw c) 0 gw rd (a0 0) R (sdl_fresh c) /\ Rest c (Bw c) gw rd R (sdl_fresh c) (reference c) /\ Act c gw rd (a0 0) (sdl_fresh c) /\
-  InvS c (Bw c) (m_ny (sdl_fresh c)) gw rd (sdl_fresh c) /\ m_ny (sdl_fresh c) = 0 /\ InvW c 0 wk_fresh0 gw rd (a0 0) (sdl_fresh c) /\
-  InvX c (Bw c) 0 wk_fresh0 gw rd (sdl_fresh c).
+  InvS c (Bw c) (m_ny (sdl_fresh c)) gw rd (sdl_fresh c) /\ m_ny (sdl_fresh c) = 0 /\ InvW c 0 wk_fresh0 true gw rd (a0 0) (sdl_fresh c) /\
+  InvX c (Bw c) 0 wk_fresh0 true gw rd (sdl_fresh c).
 Proof.
-  destruct (start_iter c Hkind HW HP (Bw c) 0 HW ltac:(intros w _; cbn; lia) wk_fresh0 (repeat wk_fresh (c_W c)) 0 0 0 (c_W c - 1)
+  destruct (start_iter c Hkind HW HP (Bw c) 0 HW ltac:(intros w _; cbn; lia) wk_fresh0 true (repeat wk_fresh (c_W c)) 0 0 0 (c_W c - 1)
               (repeat (0, false) (c_W c)) snap_fresh fresh_workers_ok (fresh_entries_ok snap_fresh eq_refl)) as (gw & rd & R & H & HR & HA & HS & Eny & HWw & HX).
   rewrite (refsuf_start c Hkind HW) in HR. exists gw, rd, R. auto 10.
 Qed.
@@ -2427,7 +2468,7 @@ Theorem iter_epoch_exact : forall sched,
   outcomes c (S (length (reference c))) (sdl_fresh c) sched = map OBatch (reference c) ++ [OStop].
 Proof.
   intros sched. destruct fresh_start as (gw & rd & R & H & HR & HA & HS & _ & HWw & HX).
-  exact (outcomes_iter c Hkind HW HP (Bw c) 0 HW wk_fresh0 (reference c) gw rd (a0 0) R (sdl_fresh c) sched H HR HA HS HWw HX).
+  exact (outcomes_iter c Hkind HW HP (Bw c) 0 HW wk_fresh0 true (reference c) gw rd (a0 0) R (sdl_fresh c) sched H HR HA HS HWw HX).
 Qed.
 
 (* C05 / C01 (iterable datasets, every snapshot interval, EVERY arrival schedule, every k): in the state reached after k batches,
@@ -2438,10 +2479,10 @@ Qed.
    their meaning (gw t / rd t: worker and per-worker ordinal of task t; tasks below m_rcvd are the passed ones). *)
 Theorem iter_entries_never_ahead : forall k sched, k <= length (reference c) ->
   exists gw rd a R, InvC c (Bw c) 0 gw rd a R (fst (replay c k (sdl_fresh c) sched)) /\
-                    InvW c 0 wk_fresh0 gw rd a (fst (replay c k (sdl_fresh c) sched)).
+                    InvW c 0 wk_fresh0 true gw rd a (fst (replay c k (sdl_fresh c) sched)).
 Proof.
   intros k sched Hk. destruct fresh_start as (gw & rd & R & H & HR & HA & HS & _ & HWw & HX).
-  destruct (replay_iter c Hkind HW HP (Bw c) 0 HW wk_fresh0 k gw rd (a0 0) R (sdl_fresh c) (reference c) sched Hk H HR HA HS HWw HX)
+  destruct (replay_iter c Hkind HW HP (Bw c) 0 HW wk_fresh0 true k gw rd (a0 0) R (sdl_fresh c) (reference c) sched Hk H HR HA HS HWw HX)
     as (s' & sched' & gw' & rd' & a' & R' & E & H' & _ & _ & _ & _ & HW' & _).
   rewrite E. exists gw', rd', a', R'. split; assumption.
 Qed.
@@ -2454,7 +2495,7 @@ Theorem iter_fault_run_never_wrong : forall m cr evs,
     (tail = [] \/ exists o, tail = [o] /\ (benignF o \/ (o = FO OStop /\ k = length (reference c)))).
 Proof.
   intros m cr evs. destruct fresh_start as (gw & rd & R & H & HR & HA & HS & _ & HWw & HX).
-  exact (run_f_iter c Hkind HW HP (Bw c) 0 HW wk_fresh0 m (reference c) gw rd (a0 0) R (sdl_fresh c) cr evs H HR HA HS HWw HX).
+  exact (run_f_iter c Hkind HW HP (Bw c) 0 HW wk_fresh0 true m (reference c) gw rd (a0 0) R (sdl_fresh c) cr evs H HR HA HS HWw HX).
 Qed.
 
 End FreshIter.
